@@ -33,10 +33,14 @@ CONSTANTS Keys,      \* finite set of byte strings used as keys and as range bou
 VARIABLES base,   \* the base store: a map
           stack,  \* sequence of caches, top is last
           nops,   \* number of operations so far
-          hist    \* the operations so far (hidden from the VIEW)
+          hist,   \* the operations so far (hidden from the VIEW)
+          lastlog \* the log replayed by the commit just taken (<<>> after any other step): part of the VIEW, so that
+                  \* the state after a commit is visited - and replayed on the real code - once per committed LOG, not
+                  \* once per resulting map (a commit that mishandles a particular log would otherwise hide behind a
+                  \* shorter path to the same map)
 
-vars == <<base, stack, nops, hist>>
-view == <<base, stack, nops>>
+vars == <<base, stack, nops, hist, lastlog>>
+view == <<base, stack, nops, lastlog>>
 
 SetOp(k, v) == [t |-> "set", k |-> k, v |-> v]
 DelOp(k)    == [t |-> "del", k |-> k, v |-> None]
@@ -108,10 +112,12 @@ Init == /\ base = EmptyMap
         /\ stack = <<>>
         /\ nops = 0
         /\ hist = <<>>
+        /\ lastlog = <<>>
 
 Step(h) == /\ nops < MaxOps
            /\ nops' = nops + 1
            /\ hist' = Append(hist, h)
+           /\ lastlog' = IF h.a = "commit" /\ Depth > 0 THEN stack[Depth].log ELSE <<>>
 
 LevelWrite(lv, op) == [lv EXCEPT !.local = MapSet(lv.local, op.k, Delta(op)),
                                  !.log   = Append(lv.log, op)]
